@@ -249,3 +249,100 @@ def setup_summaries(ip, unit):
     ip.loop_specs[("sievelib.managesieve", "Client.__read_line", 0)] = LoopSummary(
         summary_read_line_loop, header="True", proved_by="C05.R2")
     ip.name_contracts[("sievelib.managesieve", "Client.__read_block")] = k_read_block_summary
+
+
+# ---------------------------------------------------------------- R3: __read_response over the contracts of R1 / R2
+
+def k_read_line_abstract(ip, args, kwargs):
+    """contract of __read_line as its caller sees it (proved by R2 + the classification code): one of
+    data line | Literal(n) | Response(OK/NO, text) | Error; ghost: the event is appended to the consumption log"""
+    G = core.cur().ghost
+    core.prove(not G.get("response_seen", False), "R3.no-read-after-the-status-line")
+    core.prove(G.get("pending_literal") is None, "R3.announced-literal-is-read-before-the-next-line")
+    if core.branch(sym.fresh_bool("line_is_error").t):
+        raise managesieve.Error("Failed to read data from the server")
+    after_block = G.get("after_block", False)
+    G["after_block"] = False
+    if (core.branch(after_block.t) if isinstance(after_block, sym.SBool) else after_block):
+        # conforming server (RFC 5804 section 4): the octets of a literal are followed by SP or CRLF, so what is left
+        # of that line is data (possibly empty), never a status line or another size line
+        G["events"].append("rest-of-literal-line")
+        return sym.fresh_str("rest_of_literal_line", True, register=False)
+    if core.branch(sym.fresh_bool("line_is_status").t):
+        G["response_seen"] = True
+        G["events"].append("status")
+        code = b"OK" if core.branch(sym.fresh_bool("status_ok").t) else b"NO"
+        raise managesieve.Response(code, sym.fresh_str("status_text", True, register=False))
+    if core.branch(sym.fresh_bool("line_is_literal").t):
+        n = sym.fresh_int("literal_size", register=False)
+        core.assume(n.t >= 0)
+        G["pending_literal"] = n
+        G["events"].append("literal")
+        raise managesieve.Literal(n)
+    G["events"].append("line")
+    return sym.fresh_str("data_line", True, register=False)
+
+
+def k_read_block_abstract(ip, args, kwargs):
+    G = core.cur().ghost
+    size = args[1]
+    pend = G.get("pending_literal")
+    core.prove(pend is not None, "R3.blocks-are-read-only-for-an-announced-literal")
+    if pend is not None:
+        core.prove(sym.to_z3int(size) == pend.t, "R3.literal-read-with-exactly-the-announced-count")
+    G["pending_literal"] = None
+    G["after_block"] = True
+    G["events"].append("block")
+    if core.branch(sym.fresh_bool("block_is_error").t):
+        raise managesieve.Error("Failed to read bytes from the server")
+    r = sym.fresh_str("block", True, register=False)
+    core.assume(z3.Length(r.t) == sym.to_z3int(size))
+    return r
+
+
+def inv_read_response(L):
+    G = ghost()
+    return both(neg(G.get("response_seen", False)), G.get("pending_literal") is None)
+
+
+def heap_read_response(L):
+    # ghost written by the loop body: whether the previous item was a literal block whose line is not finished yet
+    ghost()["after_block"] = sym_bool("after_block_at_loop_head")
+    return None
+
+
+def setup_read_response(ip, unit):
+    ip.name_contracts[("sievelib.managesieve", "Client.__read_line")] = k_read_line_abstract
+    ip.name_contracts[("sievelib.managesieve", "Client.__read_block")] = k_read_block_abstract
+    ip.loop_specs[("sievelib.managesieve", "Client.__read_response", 0)] = LoopSpec(
+        inv_read_response, havoc={"resp": "bytes", "code": lambda n: None, "data": lambda n: None, "cpt": "int", "line": "bytes",
+                                  "inst": lambda n: None}, heap=heap_read_response, header="True")
+
+
+def h_read_response(with_nblines):
+    """__read_response stops reading exactly at the status line (or after nblines data lines), reads an announced literal
+    with exactly the announced count before anything else, and returns the status it saw"""
+    c = new_client()
+    G = ghost()
+    G["events"] = []
+    G["response_seen"] = False
+    G["pending_literal"] = None
+    nbl = sym_int("nblines") if with_nblines else -1
+    if with_nblines:
+        assume(nbl >= 1)
+    kind = None
+    r = None
+    try:
+        r = c._Client__read_response(nbl)
+        kind = "return"
+    except managesieve.Error:
+        kind = "Error"
+    except Exception as e:
+        kind = "crash"
+        note("exception", type(e).__name__)
+    prove(kind != "crash", "R3.only-Error-escapes")
+    if kind == "return":
+        prove(G["pending_literal"] is None, "R3.no-announced-literal-left-unread")
+        if not with_nblines:
+            prove(G["response_seen"], "R3.returns-only-after-a-status-line")
+            prove(r[0] == b"OK" or r[0] == b"NO", "R3.returns-the-status")
